@@ -33,7 +33,10 @@ def run(ctx):
     for cid, rng in ctx.cases([('s', i) for i in range(n)]):
         mon.cid = cid
         D = int(rng.integers(2, 6))
-        if rng.random() < 0.75:
+        if cid[1] % 60 == 9:
+            D = min(D, 3)
+            spec = zoo.int_spec(rng, n=int(rng.choice([65537, 100001])), d=D, all_log=rng.random() < 0.4)      # a large sample
+        elif rng.random() < 0.75:
             spec = zoo.int_spec(rng, n=int(rng.integers(12, 60)), d=D, all_log=rng.random() < 0.4)
         else:
             # single / double precision samples with events sitting exactly on the limits 0 and R-1, linear gains that
